@@ -87,7 +87,7 @@ Theorem C17_spec_counts_decides : forall ops exp incs,
     exists x, In x (inc_of c incs) /\ o_done x = true /\ o_tag x <= r_serial rq.
 Proof. exact counts_ok_spec. Qed.
 
-(* utils/workers, the pool behind every sender thread (model/Workers.v: Enqueue / refuse after
+(* utils/workers, the pool behind every sender thread (model/WorkersFifo.v: Enqueue / rendezvous of an unbuffered channel / refuse after
    quit / take / finish / exit / Drain / quit, all schedules): tasks are started in the order
    in which Enqueue accepted them, every accepted task is queued, started or drained exactly
    once, the channel stays within its capacity; with one worker (Start(1), what the seeder uses)
@@ -98,8 +98,33 @@ Theorem C17_workers_safe : forall cap n ops,
   Sublist (w_started s ++ w_tasks s) (w_accepted s) /\
   Permutation.Permutation (w_accepted s) (w_started s ++ w_tasks s ++ w_drained s) /\
   Permutation.Permutation (w_started s) (w_executed s ++ w_running s) /\
-  (length (w_tasks s) <= Nat.max cap 1)%nat.
+  (length (w_tasks s) <= cap)%nat.
 Proof. exact workers_safe. Qed.
+
+(* an unbuffered pool (MaxSenderTasks = 0) never holds a task in its channel: Enqueue is a
+   rendezvous with an idle worker (label WHandoff), so no worker can exit and strand a task *)
+Theorem C17_workers_unbuffered : forall n ops, w_tasks (wrun (w_init 0 n) ops) = [].
+Proof. exact unbuffered_never_holds. Qed.
+
+(* the seeder model's sender queue (running task first, queued tasks behind) IS a one-worker
+   pool: an enqueue on the queue view is possible exactly when length q <= cap (the enabling
+   condition of the seeder's REnq step with cap = MaxSenderTasks) and is a pool Enqueue or
+   rendezvous; a delivery is the pool's Finish followed by the take of the next task *)
+Theorem C17_sender_queue_is_pool_enqueue : forall s q t,
+  shape s = pool_of q -> (length q <= w_cap s)%nat ->
+  exists ops, (forall o, In o ops -> o = WEnqueue t \/ o = WHandoff t 0) /\
+    shape (wrun s ops) = pool_of (q ++ [t]) /\
+    w_accepted (wrun s ops) = w_accepted s ++ [t] /\ w_executed (wrun s ops) = w_executed s.
+Proof. exact pool_enqueue. Qed.
+Theorem C17_sender_queue_is_pool_blocked : forall s q t,
+  shape s = pool_of q -> (w_cap s < length q)%nat ->
+  wstep s (WEnqueue t) = None /\ forall i, wstep s (WHandoff t i) = None.
+Proof. exact pool_enqueue_blocked. Qed.
+Theorem C17_sender_queue_is_pool_deliver : forall s h r,
+  shape s = pool_of (h :: r) ->
+  exists ops, (forall o, In o ops -> o = WFinish 0 \/ o = WTake 0) /\
+    shape (wrun s ops) = pool_of r /\ w_executed (wrun s ops) = w_executed s ++ [h].
+Proof. exact pool_deliver. Qed.
 
 Theorem C17_workers_one_fifo : forall cap ops,
   let s := wrun (w_init cap 1) ops in
@@ -228,7 +253,37 @@ Theorem C17_liveness_bounded : forall v cfg db ops,
     forall inc, sel inc (sents (snd x)) = sel inc (enqs (snd x)).
 Proof. exact liveness_bounded. Qed.
 
-(* ... so the "exactly one done response" clause is not safety-only: under fair rounds the done
+(* The facts behind it, for EVERY schedule (the theorems of record for progress):
+   (1) every enabled internal label - reader or sender worker, in any order - strictly lowers
+       [measure]; (2) a reachable state that is not quiescent has an enabled internal label (no
+       deadlock).  Hence every maximal schedule of internal labels, fair or not, ends in a
+       quiescent state after at most [measure st] executed labels.  The environment assumption
+       is visible in the model: ODeliver is enabled whenever a sender queue is non-empty, i.e.
+       the peer's SendChunk callback returns. *)
+Theorem C17_every_internal_step_decreases : forall v cfg db st o st' evs,
+  internal o -> step v cfg db st o = Some (st', evs) -> (measure st' < measure st)%nat.
+Proof. exact step_measure. Qed.
+
+Theorem C17_no_deadlock : forall v cfg db ops,
+  1 <= c_threads cfg -> 0 < c_limit cfg ->
+  let st := fst (run v cfg db (init cfg) ops) in
+  ~ quiescent st -> exists o, internal o /\ step v cfg db st o <> None.
+Proof. exact no_deadlock. Qed.
+
+Theorem C17_internal_schedules_terminate : forall v cfg db ops st,
+  Forall internal ops -> (executed v cfg db st ops + measure (fst (run v cfg db st ops)) <= measure st)%nat.
+Proof. exact internal_schedules_terminate. Qed.
+
+(* at quiescence every response ever produced - of live, pruned and unregistered sessions alike -
+   has been sent *)
+Theorem C17_every_response_is_sent : forall cfg st tr,
+  fifo_inv cfg st tr -> quiescent st -> forall r, In r (enqs tr) -> In r (sents tr).
+Proof. exact every_response_is_sent. Qed.
+
+(* ... so the "exactly one done response" clause is not safety-only (stated for the sessions
+   still in the table at quiescence; for pruned / unregistered sessions a done response that
+   was produced is covered by C17_every_response_is_sent, and one that was never produced is
+   not owed): under fair rounds the done
    response of every finished session is actually sent (and by C17_session_content it is the
    last response of its incarnation, after the whole range). *)
 Theorem C17_done_response_is_sent : forall cfg db ops,
@@ -279,6 +334,14 @@ Print Assumptions C17_requests_complete.
 Print Assumptions C17_requests_bounded.
 Print Assumptions C17_requests_never_exceed.
 Print Assumptions C17_liveness_bounded.
+Print Assumptions C17_every_internal_step_decreases.
+Print Assumptions C17_no_deadlock.
+Print Assumptions C17_internal_schedules_terminate.
+Print Assumptions C17_every_response_is_sent.
+Print Assumptions C17_workers_unbuffered.
+Print Assumptions C17_sender_queue_is_pool_enqueue.
+Print Assumptions C17_sender_queue_is_pool_blocked.
+Print Assumptions C17_sender_queue_is_pool_deliver.
 Print Assumptions C17_done_response_is_sent.
 Print Assumptions C17_full_holds.
 Print Assumptions C17_pending_bound.
